@@ -341,6 +341,25 @@ class Path:
             self.trace.append(f'{note}={d}')
         return d
 
+    def must_equal_int(self, expr: Any, limit: int = 64) -> Optional[int]:
+        """If the path condition forces `expr` to one integer value, return it."""
+        expr = z3.simplify(expr)
+        if z3.is_int_value(expr):
+            return expr.as_long()
+        self.solver.push()
+        try:
+            if self.solver.check() != z3.sat:
+                return None
+            v = self.solver.model().eval(expr, model_completion=True)
+            if not z3.is_int_value(v):
+                return None
+            self.solver.add(expr != v)
+            if self.solver.check() == z3.unsat:
+                return v.as_long()
+            return None
+        finally:
+            self.solver.pop()
+
     def oblige(self, name: str, goal: Any, lineno: int = 0, note: str = '') -> None:
         if goal is True:
             goal = z3.BoolVal(True)
@@ -817,6 +836,8 @@ class Interp:
                     attr_targets.append(base)
         for extra in spec.modifies_names:
             mutated_names.add(extra)
+        if getattr(spec, 'idx_name', ''):
+            names.add(spec.idx_name)
         for name in sorted(names):
             if env.has(name):
                 cur = env.lookup(name)
@@ -922,6 +943,12 @@ class Interp:
             return [tuple(t) for t in zip(*[self.iterate_concrete(x) for x in it.parts])]
         if isinstance(it, GenVal):
             return list(it.items)
+        from . import arrays
+        if isinstance(it, arrays.View):
+            n = it.count if isinstance(it.count, int) else self.path.must_equal_int(it.count)
+            if n is None:
+                raise Unsupported('iteration over a buffer slice of symbolic length')
+            return [it.fn(z3.IntVal(k)) for k in range(n)]
         if isinstance(it, Obj):
             m = self.find_method(it, '__iter__')
             if m is not None:
